@@ -237,9 +237,7 @@ class EvalMixin:
 
     def e_Set(self, n, fr):
         vals = self.dedupe(self.e_Tuple(n, fr))
-        if any(isinstance(v, (Sym, Ref)) for v in vals):
-            return self.p.alloc(HList(list(vals)))
-        return frozenset(vals)
+        return self.p.alloc(HList(list(vals)))
 
     def e_Dict(self, n, fr):
         items = []
@@ -317,10 +315,8 @@ class EvalMixin:
         return out
 
     def e_SetComp(self, n, fr):
-        items = self.dedupe(self.comp(n, fr))
-        if any(isinstance(v, (Sym, Ref)) or (isinstance(v, tuple) and any(isinstance(u, (Sym, Ref)) for u in v)) for v in items):
-            return self.p.alloc(HList(items))
-        return frozenset(items)
+        # a set is kept as a duplicate-free heap list (so add/pop/remove work on it)
+        return self.p.alloc(HList(self.dedupe(self.comp(n, fr))))
 
     def e_DictComp(self, n, fr):
         out = []
